@@ -13,5 +13,5 @@ done
 cd /repo
 go tool covdata func -i="$OUT/data" > "$OUT/func.txt" 2>&1 || true
 go tool covdata percent -i="$OUT/data" > "$OUT/percent.txt" 2>&1 || true
-grep -v "100.0%" "$OUT/func.txt" | grep -v "verif_hooks" > "$OUT/not-fully-covered.txt" || true
+grep -v "100.0%" "$OUT/func.txt" | grep -v "verif_hooks\|^verifharness" > "$OUT/not-fully-covered.txt" || true
 cat "$OUT/percent.txt"
